@@ -98,23 +98,51 @@ def _accum(rec) -> Callable[[T], T]:
             return t
         name, lid, (init, step) = t.a
         lr = rec.loops.get(lid) if rec is not None else None
-        if lr is None or lr.kind != "for" or lr.exits or lr.target is None or lr.iter is None:
+        if lr is None or lr.kind != "for" or lr.target is None or lr.iter is None:
             return t
-        if not _is_empty_list(init):
+        flag_like = step.op == "ite" and step.a[1] == const(True)
+        if lr.exits and not flag_like:
             return t
         prev = T("widen", (name, lid, (init,)))
+        # a monotone flag:  found = I; for x in S: if c(x): found = True [; break]   ==   I or any(c(x) for x in S)
+        if step.op == "ite" and step.a[1] == const(True) and step.a[2] == prev and not sym.contains(step.a[0], prev) \
+                and lr.kind == "for" and lr.target is not None and lr.iter is not None \
+                and all(k == "break" and any(c == step.a[0] and p for c, p in pc) for k, pc, _, _ in lr.exits):
+            anyc = T("call", (T("builtin", ("any",)), (T("comp", ("gen", step.a[0], ((rewrite(lr.target, fn), rewrite(lr.iter, fn), ()),))),), ()))
+            return anyc if init == const(False) else T("bool", ("or", (init, anyc)))
+        if lr.exits:
+            return t
+        # the update may sit under conditions:  if c(x): acc.append(F(x))   ->   [F(x) for x in S if c(x)]
+        conds = ()
+        core = step
+        while core.op == "ite" and (core.a[2] == prev or core.a[1] == prev) and not sym.contains(core.a[0], prev):
+            if core.a[2] == prev:
+                conds, core = conds + (core.a[0],), core.a[1]
+            else:
+                conds, core = conds + (neg(core.a[0]),), core.a[2]
+        # the iterated expression may itself be a loop-built list: bring it (and the element variable that embeds it) to
+        # normal form too, as was done bottom-up for the occurrences inside the update
+        it_n = rewrite(lr.iter, fn)
+        tgt_n = rewrite(lr.target, fn)
+        gens = ((tgt_n, it_n, conds),)
+        if core.op == "mut" and core.a[0] == prev and core.a[1] == "__setitem__" and len(core.a[2]) == 2 \
+                and init.op == "dict" and not init.a[0] and not any(sym.contains(v, prev) for v in core.a[2]):
+            return T("comp", ("dict", T("tuple", (tuple(core.a[2]),)), gens))
         x = None
         how = None
-        if step.op == "mut" and step.a[0] == prev and step.a[1] in ("extend", "append") and len(step.a[2]) == 1 and len(step.a) == 3:
-            x, how = step.a[2][0], step.a[1]
-        elif step.op == "bin" and step.a[0] == "+" and step.a[1] == prev:
-            x, how = step.a[2], "extend"
+        if core.op == "mut" and core.a[0] == prev and core.a[1] in ("extend", "append") and len(core.a[2]) == 1 and len(core.a) == 3:
+            x, how = core.a[2][0], core.a[1]
+        elif core.op == "bin" and core.a[0] == "+" and core.a[1] == prev:
+            x, how = core.a[2], "extend"
         if x is None or sym.contains(x, prev):
             return t
-        comp = T("comp", ("list", x, ((lr.target, lr.iter, ()),)))
-        if how == "append":
-            return comp
-        return T("call", (LIST, (T("call", (CHAIN, (comp,), ())),), ()))
+        comp = T("comp", ("list", x, gens))
+        out = comp if how == "append" else T("call", (LIST, (T("call", (CHAIN, (comp,), ())),), ()))
+        if _is_empty_list(init):
+            return out
+        if init.op in ("list", "comp", "bin", "call", "mut"):
+            return T("bin", ("+", init, out))          # the variable is used as a list: what it held before comes first
+        return t
     return fn
 
 
@@ -181,15 +209,130 @@ def _gate_split(t: T) -> T:
     return t
 
 
+def _list_update(t: T) -> T:
+    """A fresh list updated in place and then used as a value:  L.extend(M) -> L + M,  L.append(x) -> L + [x]."""
+    if t.op == "mut" and len(t.a) == 3 and len(t.a[2]) == 1 and t.a[0].op in ("comp", "list", "bin", "call") \
+            and (t.a[0].op != "comp" or t.a[0].a[0] == "list"):
+        if t.a[1] == "extend" and t.a[2][0].op in ("comp", "list", "bin"):
+            return T("bin", ("+", t.a[0], _as_list(t.a[2][0])))
+        if t.a[1] == "append":
+            return T("bin", ("+", t.a[0], T("list", ((t.a[2][0],),))))
+    return t
+
+
+def _is_none_test(c: T):
+    """(operand, True) for `x is None`, (operand, False) for `x is not None`; else None."""
+    if c.op == "cmp" and c.a[0] in ("is", "is not") and c.a[2] == NONE:
+        return c.a[1], c.a[0] == "is"
+    return None
+
+
+def simplify(t: T, assume: Optional[dict] = None, depth: int = 0) -> T:
+    """Context-aware simplification: inside the branch of a conditional its condition is known, so nested conditions and
+    conditionals that repeat (or contradict) it collapse.  Also: `(a if c else None) is not None` becomes `c and a is not
+    None`, a conditional used as a condition becomes and/or, attribute access distributes over a conditional object."""
+    from .render import assume_lookup, with_assumption
+    assume = assume or {}
+    if depth > 60:
+        return t
+
+    def cond(c: T) -> T:
+        tv = assume_lookup(assume, c)
+        if tv is not None:
+            return const(tv)
+        if c.op == "not":
+            i = cond(c.a[0])
+            if i.op == "const":
+                return const(not i.a[0])
+            return i.a[0] if i.op == "not" else T("not", (i,))
+        if c.op == "bool":
+            items = [cond(x) for x in c.a[1]]
+            unit = c.a[0] == "and"
+            if any(i.op == "const" and bool(i.a[0]) != unit for i in items):
+                return const(not unit)
+            items = [i for i in items if i.op != "const"]
+            if not items:
+                return const(unit)
+            return items[0] if len(items) == 1 else T("bool", (c.a[0], tuple(items)))
+        nt = _is_none_test(c)
+        if nt is not None and nt[0].op == "ite":
+            x, is_none = nt
+            a_ = cond(T("cmp", (c.a[0], x.a[1], NONE)))
+            b_ = cond(T("cmp", (c.a[0], x.a[2], NONE)))
+            return cond(T("ite", (x.a[0], a_, b_)))
+        if nt is not None and nt[0] == NONE:
+            return const(nt[1])
+        if nt is not None and nt[0].op in ("new", "list", "tuple", "dict", "comp", "fstr", "const"):
+            return const(not nt[1]) if nt[0] != NONE else const(nt[1])
+        if c.op == "ite":
+            k = cond(c.a[0])
+            if k.op == "const":
+                return cond(c.a[1] if k.a[0] else c.a[2])
+            a_ = simplify(c.a[1], with_assumption(assume, k, True), depth + 1)
+            b_ = simplify(c.a[2], with_assumption(assume, k, False), depth + 1)
+            a_ = simplify_cond(a_, with_assumption(assume, k, True))
+            b_ = simplify_cond(b_, with_assumption(assume, k, False))
+            if a_.op == "const" and b_.op == "const":
+                if bool(a_.a[0]) and not bool(b_.a[0]):
+                    return k
+                if not bool(a_.a[0]) and bool(b_.a[0]):
+                    return neg(k)
+                return const(bool(a_.a[0]))
+            if b_.op == "const" and not b_.a[0]:
+                return T("bool", ("and", (k, a_)))
+            if a_.op == "const" and a_.a[0]:
+                return T("bool", ("or", (k, b_)))
+            if a_.op == "const" and not a_.a[0]:
+                return T("bool", ("and", (neg(k), b_)))
+            if b_.op == "const" and b_.a[0]:
+                return T("bool", ("or", (neg(k), a_)))
+            return T("ite", (k, a_, b_))
+        return c
+
+    if t.op == "ite":
+        k = cond(t.a[0])
+        if k.op == "const":
+            return simplify(t.a[1] if k.a[0] else t.a[2], assume, depth + 1)
+        a_ = simplify(t.a[1], with_assumption(assume, k, True), depth + 1)
+        b_ = simplify(t.a[2], with_assumption(assume, k, False), depth + 1)
+        return a_ if a_ == b_ else T("ite", (k, a_, b_))
+    if t.op == "attr" and t.a[0].op == "ite":
+        x = t.a[0]
+        return simplify(T("ite", (x.a[0], T("attr", (x.a[1], t.a[1])), T("attr", (x.a[2], t.a[1])))), assume, depth + 1)
+    if t.op in ("cmp", "bool", "not"):
+        return cond(t)
+
+    def go(x):
+        if isinstance(x, T):
+            return simplify(x, assume, depth + 1)
+        if isinstance(x, tuple):
+            new = tuple(go(e) for e in x)
+            return x if all(n is o for n, o in zip(new, x)) else new
+        return x
+    if t.op in ("comp", "lambda", "widen"):
+        return t                       # binders: their bodies have their own scopes
+    na = go(t.a)
+    return t if na is t.a else T(t.op, na)
+
+
+def simplify_cond(c: T, assume: dict) -> T:
+    if c.op in ("cmp", "bool", "not", "ite", "const"):
+        return simplify(c, assume) if c.op != "const" else c
+    return c
+
+
 def normalise(rec, t: Optional[T]) -> Optional[T]:
     if t is None:
         return None
     t = accum_to_comp(rec, t)
     t = consumed_generators(t)
+    t = rewrite(t, _list_update)
     t = fuse_comps(t)
     t = sorted_form(t)
+    t = simplify(t)
     t = none_last(t)
-    return rewrite(t, _gate_split)
+    t = rewrite(t, _gate_split)
+    return simplify(t)
 
 
 # ------------------------------------------------------------------ signed / narrowed views of a machine word
